@@ -76,6 +76,8 @@ func registerAll() {
 	reg("I2", "iterator cursor advance: every exit of a Next/next method that hands out an element is preceded on all paths by a write of the iterator's cursor state (own field, nested iterator, or delegation to its own Next)", ruleI2)
 	reg("I3", "range validation: the range iterator constructors reject start > end and bounds beyond the count", ruleI3)
 
+	reg("L11", "decoded-field coverage: every slab literal built by a decoder restores every field the in-memory code maintains for that state (sibling link, header id/size/count/first key, elements, extra data, any-size and collision-group flags, inlined flag)", ruleL11)
+
 	const tCFG = "CFG path rules on go/ssa (must-precede, edge dominance, loop-iteration coverage, error-edge reachability)"
 	propTable["C01"] = &PropSpec{
 		ID:    "C01",
@@ -149,14 +151,14 @@ func registerAll() {
 	}
 	propTable["C07"] = &PropSpec{
 		ID:    "C07",
-		Rules: []string{"L3", "L4", "L1", "X1"},
+		Rules: []string{"L3", "L4", "L11", "L1", "X1"},
 		Explanation: "header flags: each setter/getter pair uses the same byte and single-bit mask, disjoint from type and version bits; each slab encoder sets each flag exactly under the state it describes (root <=> extra data, has-pointers <=> HasPointer(), next <=> sibling link, any-size <=> anySize, inlined-slabs <=> collected extra data) and the V1 decoders and raw-bytes queries consult exactly those flags; vocabularies coincide: every CBOR tag emitted is dispatched (in-package or, by table, by the client decoder) and vice versa, tag numbers are distinct, slab kinds emitted equal kinds dispatched by DecodeSlab, encoders emit version 1 and decoders accept exactly versions 0 and 1; encoders use fixed-width heads matching the size constants; decode dispatch covers every element kind.",
 		NotDecided: "byte-for-byte round trip of arbitrary nested content, compact-map ordering, rejection of trailing bytes.",
 		Technique:  "mask/guard checks on go/ssa, AST vocabulary comparison of encoder and decoder sides, encoder width interpretation",
 	}
 	propTable["C08"] = &PropSpec{
 		ID:    "C08",
-		Rules: []string{"R1", "S3", "S7", "S8", "S9"},
+		Rules: []string{"R1", "S3", "S7", "S8", "S9", "L2", "L11"},
 		Explanation: "a slab served from the read cache (or decoded) that is then mutated re-enters the write set because every mutation ends in a store of that object on every success path; commit moves the very same object from the write set into the cache (nil after a deletion) and only on the success edge; apart from that only DecodeSlab results under the same id enter the cache, controlled by the cache flag; lookups consult write set, cache, ledger in that order and a hit returns the found entry; observers cannot reach a writer of the write set.",
 		NotDecided: "equality of decoded and original content (C07) and the compact-map reload exception; byte-identity under all schedules.",
 		Technique:  "typestate over slab objects + field-write ownership + dominance of lookups",
